@@ -45,7 +45,7 @@ def gen_net(rng, tier):
     kind = rng.choice(['DRR', 'DRR', 'WFQ', 'WRR', None, None])
     net = sched.gen_sched_case(rng, tier, kind=kind, monitor=False, many_to_one=False,
                                static=rng.random() < 0.3)
-    if rng.random() < 0.7:
+    if rng.random() < 0.7 and all(isinstance(f, int) for f in net['flows']):
         m = dict((f, NAMES[f % len(NAMES)] + (str(f) if f >= len(NAMES) else '')) for f in net['flows'])
         net['flows'] = [m[f] for f in net['flows']]
         net['table'] = [[m[c], v] for c, v in net['table']]
